@@ -19,6 +19,8 @@ def _assigns_to_self(fn_node, attr: str) -> List[ast.Assign]:
     return [n for n in walk_no_nested(fn_node) if isinstance(n, ast.Assign) and any(
         C.self_attr(t) == attr for t in n.targets)]
 
+from .. import seqexpr as SE
+
 
 def _order_preserving_iter(e: ast.AST, names: set) -> Optional[str]:
     """The name iterated if ``e`` iterates one of ``names`` in its own order (no
@@ -49,6 +51,7 @@ def rule_r1(ctx) -> List[R.Inst]:
                             "the list of stacked lists is not the constructor argument in its own order",
                             construct=unparse(un[0]) if un else "no _unstacked assignment"))
     # boundaries: prefix sums of the lengths in iteration order
+    env = SE.Env(fn.node)
     ix = _assigns_to_self(fn.node, "_ixs")
     ok_ix = False
     why = "boundary computation not recognised"
@@ -72,8 +75,20 @@ def rule_r1(ctx) -> List[R.Inst]:
                         why = f"boundaries are accumulated over '{unparse(lp.iter)}', not over the stacked lists in their order"
                     elif it:
                         why = f"boundary step is '{unparse(lp.body[0])[:80]}', not previous + len(list)"
-        elif isinstance(v, ast.Call) and unparse(v.func).endswith("cumsum"):
-            ok_ix = "len(" in unparse(v) and "[0]" in unparse(v)
+        else:
+            alts = SE.prefix_sums_of(v, env.at.get(id(ix[0]), env.final))
+            if alts:
+                bad_src = [a for a in alts if a.base not in src_names]
+                bad_flt = [a for a in alts if a.filters]
+                bad_elt = [a for a in alts if a.elt.replace(" ", "") not in ("len(_)", "len(_.df)", "_.df.shape[0]", "len(_._df)")]
+                if not (bad_src or bad_flt or bad_elt):
+                    ok_ix = True
+                elif bad_src:
+                    why = f"boundaries are accumulated over '{bad_src[0].base}', not over the stacked lists in their order"
+                elif bad_flt:
+                    why = f"boundaries skip lists ('{bad_flt[0]}') that the concatenation includes"
+                else:
+                    why = f"boundary step is '{bad_elt[0].elt}', not previous + len(list)"
     if ok_ix:
         insts.append(R.ok("C12.R1", "_ixs", file, ix[0].lineno, idiom="prefix sums 0, len0, len0+len1, ... in list order"))
     elif why == "boundary computation not recognised":
@@ -86,17 +101,16 @@ def rule_r1(ctx) -> List[R.Inst]:
     why = "concatenation not recognised"
     if len(stk) == 1:
         cc = [n for n in ast.walk(stk[0].value) if isinstance(n, ast.Call) and unparse(n.func).endswith("concat")]
-        if len(cc) == 1 and cc[0].args and isinstance(cc[0].args[0], ast.ListComp):
-            lc = cc[0].args[0]
-            g = lc.generators[0]
-            it = _order_preserving_iter(g.iter, src_names)
-            if it and not g.ifs and unparse(lc.elt) in (f"{unparse(g.target)}.df", f"{unparse(g.target)}._df"):
+        alts = SE.describe(cc[0].args[0], env.at.get(id(stk[0]), env.final)) if len(cc) == 1 and cc[0].args else None
+        if alts:
+            if all(a.base in src_names and not a.filters and a.elt in ("_.df", "_._df") for a in alts):
                 good = True
-            elif g.ifs:
+            elif any(a.filters for a in alts):
                 why = "some lists are filtered out of the concatenation but not out of the boundaries"
+            elif any(a.base not in src_names for a in alts):
+                why = f"frames are concatenated from '{sorted(a.base for a in alts if a.base not in src_names)[0]}'"
             else:
-                why = f"frames are concatenated from '{unparse(g.iter)}'"
-            srt = any(k.arg == "sort" and isinstance(k.value, ast.Constant) and k.value.value for k in cc[0].keywords)
+                why = f"what is concatenated is '{sorted(a.elt for a in alts)[0]}' of each list, not its frame"
     if good:
         insts.append(R.ok("C12.R1", "_stacked", file, stk[0].lineno, idiom="concat([v.df for v in lists]) in list order"))
     elif why == "concatenation not recognised":
@@ -106,7 +120,7 @@ def rule_r1(ctx) -> List[R.Inst]:
                             construct=unparse(stk[0])[:160] if stk else "no _stacked"))
     # write-back pairs list i with boundaries (i, i+1)
     q2 = ST + "._update"
-    fn2 = M.fn(q2)
+    fn2 = M.nfn(q2, subst=True)
     file2, line2 = fn_loc(M, q2)
     loops = [n for n in walk_no_nested(fn2.node) if isinstance(n, ast.For)]
     good = False
@@ -153,6 +167,8 @@ def _is_stack_write(n: ast.AST) -> bool:
                 base = unparse(t.value)
                 if "_stacked" in base and (isinstance(t, ast.Subscript) or base != "self"):
                     return True
+                if isinstance(t, ast.Subscript) and base == "self.loc":
+                    return True      # the loc indexer of the stacked frame, as a subscript store
     if isinstance(n, ast.Assign) and len(n.targets) == 1 and unparse(n.targets[0]) == "self._stacked" and \
             "self._stacked" in unparse(n.value):
         return True   # the frame is replaced by an edited copy of itself (assign / drop / ...)
@@ -220,7 +236,7 @@ def rule_r3(ctx) -> List[R.Inst]:
 def rule_r4(ctx) -> List[R.Inst]:
     M = ctx.M
     q = ST + "._update"
-    fn = M.fn(q)
+    fn = M.nfn(q, subst=True)
     file, line = fn_loc(M, q)
     loops = [n for n in walk_no_nested(fn.node) if isinstance(n, ast.For)]
     if len(loops) != 1 or not isinstance(loops[0].target, ast.Tuple) or len(loops[0].target.elts) != 3:
@@ -329,26 +345,27 @@ def _stack_insts(M, q, insts):
         insts.append(R.viol("C12.R5", f"{owner}.stack.class", file, line,
                             "stack() does not instantiate the chart class's own Stacker: game-specific stacked names are lost",
                             construct=unparse(rets[0].value)[:120] if rets else "no return"))
-    # selection of lists: all values of self.objs, or an isinstance filter over them
-    comps = [n for n in walk_no_nested(fn.node) if isinstance(n, ast.ListComp)]
-    good = bool(comps)
-    for lc in comps:
-        g = lc.generators[0]
-        if unparse(g.iter) not in ("self.objs.values()",):
-            good = False
-        if unparse(lc.elt) != unparse(g.target):
-            good = False
-        for cond in g.ifs:
-            if not (isinstance(cond, ast.Call) and unparse(cond.func) == "isinstance" and
-                    unparse(cond.args[0]) == unparse(g.target) and unparse(cond.args[1]) == "include_types"):
-                good = False
-    unfiltered = [lc for lc in comps if not lc.generators[0].ifs]
+    # selection of lists: all values of self.objs, or an isinstance filter over them (any spelling: sa/seqexpr.py)
+    env = SE.Env(fn.node)
+    alts = None
+    if rets and isinstance(rets[0].value, ast.Call) and rets[0].value.args:
+        alts = SE.describe(rets[0].value.args[0], env.at.get(id(rets[0]), env.final))
+    flt = "isinstance(_, include_types)"
+    if alts is None:
+        # not a recognised sequence expression: fall back on the comprehensions the function contains
+        comps = [n for n in walk_no_nested(fn.node) if isinstance(n, ast.ListComp)]
+        insts.append(R.viol("C12.R5", f"{owner}.stack.selection", file, line,
+                            "the lists handed to the Stacker are not (all lists | lists of the requested types) in slot order",
+                            construct="; ".join(unparse(c)[:80] for c in comps)))
+        return
+    good = all(a.base == "self.objs.values()" and a.elt == "_" and set(a.filters) <= {flt} for a in alts)
+    unfiltered = [a for a in alts if not a.filters]
     if good and unfiltered:
         insts.append(R.ok("C12.R5", f"{owner}.stack.selection", file, line, idiom="all lists, or isinstance(list, include_types)"))
     else:
         insts.append(R.viol("C12.R5", f"{owner}.stack.selection", file, line,
                             "the lists handed to the Stacker are not (all lists | lists of the requested types) in slot order",
-                            construct="; ".join(unparse(c)[:80] for c in comps)))
+                            construct="; ".join(sorted(str(a) for a in alts))[:200]))
 
 
 # --------------------------------------------------------------------------- R6
